@@ -68,6 +68,55 @@ def settings(m, meta):
                 delattr(SubI, attr)
             except Exception:
                 pass
+    # ---- jpeg_quality / read_from_file: every history of up to three set / unset operations on two classes in line, a sibling class and
+    #      an instance of each, against "own value, else the nearest class that has one, else the default"
+    import itertools
+    class SibI(ITerm2Image):
+        pass
+    for attr, values, default in (("jpeg_quality", (0, 50, 95, -1), -1), ("read_from_file", (True, False), True)):
+        ia, ib = SubI(img), SubSubI(img)
+        objs = {"A": SubI, "B": SubSubI, "S": SibI, "a": ia, "b": ib}
+        parent = {"A": None, "B": "A", "S": None, "a": "A", "b": "B"}
+        ops = [(lv, "set", v) for lv in objs for v in values] + [(lv, "del", None) for lv in objs]
+
+        def model_get(own, lv):
+            while lv is not None:
+                if lv in own:
+                    return own[lv]
+                lv = parent[lv]
+            return default
+        done = False
+        for n in (1, 2, 3):
+            for seq in itertools.product(ops, repeat=n):
+                own = {}
+                try:
+                    for lv, op, v in seq:
+                        if op == "set":
+                            setattr(objs[lv], attr, v)
+                            own[lv] = v
+                        else:
+                            delattr(objs[lv], attr)
+                            own.pop(lv, None)
+                    got = {lv: getattr(o, attr) for lv, o in objs.items()}
+                    got["root"] = getattr(ITerm2Image, attr)
+                    exp = {lv: model_get(own, lv) for lv in objs}
+                    exp["root"] = default
+                    if got != exp:
+                        bad.append((attr, "history", seq, "effective values", got, "expected", exp))
+                        done = True
+                except Exception as e:  # noqa: BLE001
+                    bad.append((attr, "history", seq, "raised", repr(e)))
+                    done = True
+                finally:
+                    for o in objs.values():
+                        try:
+                            delattr(o, attr)
+                        except Exception:  # noqa: BLE001
+                            vars(o).pop("_" + attr, None) if not isinstance(o, type) else None
+                if done:
+                    break
+            if done:
+                break
     # ---- native_anim_max_bytes: one global value
     old = ITerm2Image.native_anim_max_bytes
     try:
